@@ -378,6 +378,40 @@ func (net *Net) FlushWithin(group map[int]bool, srcToo bool, limit int) int {
 	return n
 }
 
+// MsgKind classifies a message: 1 proposal or block part, 2 prevote, 4 precommit.
+func MsgKind(m consensus.ConsensusMessage) int {
+	switch x := m.(type) {
+	case *consensus.VoteMessage:
+		if x.Vote.Type == types.PrevoteType {
+			return 2
+		}
+		return 4
+	default:
+		return 1
+	}
+}
+
+// FlushKinds delivers (FIFO, repeatedly up to limit) the in-flight messages
+// whose kind is in kinds, whose destination is in dst and whose source is in
+// src (byzantine sources always qualify).
+func (net *Net) FlushKinds(kinds int, dst, src map[int]bool, limit int) int {
+	n := 0
+	for progress := true; progress && n < limit; {
+		progress = false
+		for k := 0; k < len(net.Pool); k++ {
+			m := net.Pool[k]
+			if MsgKind(m.M)&kinds == 0 || !dst[m.To] || !(src[m.From] || net.Byz[m.From]) {
+				continue
+			}
+			net.Deliver(k)
+			n++
+			progress = true
+			break
+		}
+	}
+	return n
+}
+
 // Heights returns the committed height (block store) of each honest node.
 func (net *Net) Heights() map[int]int64 {
 	out := map[int]int64{}
